@@ -689,6 +689,27 @@ func e2eStream(r *lib.Run) {
 			}
 		}
 		root := filepath.Join(r.Scratch(), fmt.Sprintf("e2e-%d", i), "repo")
+		if i%2 == 1 {
+			// Incremental variant: first the same repository with every dependency public and not test_only is
+			// built (all edges are allowed), then only the dependencies' restrictions are put in place. The
+			// dependents' own definitions do not change, so they may be reused - but not without being re-checked.
+			var open []labellib.Target
+			for k, t := range ts {
+				if k%2 == 1 { // the dependency of each pair
+					t.Visibility = []string{"PUBLIC"}
+					t.TestOnly = false
+				}
+				open = append(open, t)
+			}
+			if pre, err := labellib.WriteRepo(root, cfg, open); err == nil {
+				for _, e := range edges {
+					if o, _, tries := pre.BuildOutcome(e.A.String()); o == labellib.BuildOK {
+						r.Obs("e2e_prebuilt_with_open_dependencies", 1)
+						r.Obs("e2e_builds", int64(tries))
+					}
+				}
+			}
+		}
 		repo, err := labellib.WriteRepo(root, cfg, ts)
 		if err != nil {
 			r.Inconclusive("cannot write repo: " + err.Error())
